@@ -33,8 +33,8 @@
 
 static int g_mutant = 0;
 
-// ---- copy of lib/utils.cpp matchglob with /verif/proposed/C23-matchglob.diff applied (fixed = true) and with the
-// ---- hand-made mutations used in docs/C23.md
+// ---- copy of lib/utils.cpp matchglob: fixed = true is the code after /verif/proposed/C23-matchglob.diff (/repo commit
+// ---- 1cf3800), fixed = false the code before it; `mutant` selects the hand-made mutations used in docs/C23.md
 static bool matchglob_copy(const std::string& pattern, const std::string& name, bool caseInsensitive, bool fixed, int mutant)
 {
     const char* p = pattern.c_str();
@@ -48,14 +48,14 @@ static bool matchglob_copy(const std::string& pattern, const std::string& name, 
             case '*':
                 if (fixed) {
                     // Consecutive asterisks are equivalent to a single one
-                    while (p[1] == '*')
+                    while (p[1] == '*') {
                         p++;
+                    }
                 }
                 // Step forward until we match the next character after *
-                if (!(fixed && p[1] == '?')) {
-                    while (*n != '\0' && *n != p[1]) {
-                        n++;
-                    }
+                // (any character matches a following '?', so nothing can be skipped then)
+                while (!(fixed && p[1] == '?') && *n != '\0' && *n != p[1]) {
+                    n++;
                 }
                 if (*n != '\0') {
                     // If this isn't the last possibility, save it for later
@@ -262,7 +262,7 @@ struct GFinding {
     unsigned long long hash;
     // derived
     bool skip = false, internal = false, critical = false, libReports = true;
-    std::string id, text, symbolNames;
+    std::string id, text, symbolNames, gfile;   // gfile = callStack.back().getfile(false): what the gate reads
 };
 
 class RecLogger : public ErrorLogger {
@@ -339,7 +339,8 @@ static std::string opGate(const std::vector<std::string>& f) {
         g.libReports = settings.library.reportErrors(e.file0);
         g.text = e.toString(settings.verbose, settings.templateFormat, settings.templateLocation);
         g.symbolNames = e.symbolNames();
-        if (g.hasloc) tb.simplify(e.callStack.back().getfile(false)); else tb.simplify(e.file0);
+        g.gfile = g.hasloc ? e.callStack.back().getfile(false) : std::string();
+        tb.simplify(g.hasloc ? g.gfile : e.file0);
         fs.push_back(g);
         json += "{";
         if (g.hasloc) json += "\"file\":" + jsonStr(g.file) + ",\"linenr\":" + std::to_string(g.line) + ",\"column\":1,";
@@ -348,7 +349,7 @@ static std::string opGate(const std::vector<std::string>& f) {
     }
     for (const auto& s : all)
         for (const auto& g : fs)
-            tb.match(s.fileName, Path::simplifyPath(g.hasloc ? g.file : std::string()));
+            tb.match(s.fileName, Path::simplifyPath(g.hasloc ? g.gfile : std::string()));
     RecLogger logger;
     const CppCheck::ExecuteCmdFn exec = [&json](std::string /*exe*/, std::vector<std::string> /*args*/, std::string /*redirect*/, std::string& output) {
         output = json;
@@ -368,7 +369,7 @@ static std::string opGate(const std::vector<std::string>& f) {
             const GFinding& g = fs[j];
             if (g.skip) continue;
             if (m.id != g.id || m.hash != g.hash || m.callStack.empty() == g.hasloc) continue;
-            if (g.hasloc && (m.callStack.back().getfile(false) != g.file || m.callStack.back().line != g.line)) continue;
+            if (g.hasloc && (m.callStack.back().getfile(false) != g.gfile || m.callStack.back().line != g.line)) continue;
             if (m.symbolNames() != g.symbolNames) continue;
             if (g.internal != (m.severity == Severity::internal)) {
                 if (!g.internal && m.severity == Severity::internal) asInternal = true; else continue;
@@ -380,7 +381,7 @@ static std::string opGate(const std::vector<std::string>& f) {
     }
     std::string derived;
     for (const GFinding& g : fs)
-        derived += " " + B(g.skip) + ":" + B(g.internal) + ":" + B(g.libReports) + ":" + B(g.critical) + ":" + hex(g.text) + ":" + hex(g.id) + ":" + hex(g.symbolNames);
+        derived += " " + B(g.skip) + ":" + B(g.internal) + ":" + B(g.libReports) + ":" + B(g.critical) + ":" + hex(g.text) + ":" + hex(g.id) + ":" + hex(g.symbolNames) + ":" + hex(g.gfile);
     return "A " + (adds.empty() ? std::string("_") : adds) + " O " + (outs.empty() ? std::string("_") : outs) + " X " + std::to_string(exitcode) +
            " N " + flagsStr(supprs.nomsg.getSuppressions()) + " M " + flagsStr(supprs.nofail.getSuppressions()) + " | D" + derived + tb.str();
 }
@@ -390,8 +391,8 @@ static std::string step(const std::vector<std::string>& f) {
     if (op == "g") {
         const bool ci = f.at(1) == "1";
         const std::string p = unhex(f.at(2)), n = unhex(f.at(3));
-        const bool cur = g_mutant ? matchglob_copy(p, n, ci, false, g_mutant) : matchglob(p, n, ci);
-        return "R " + B(cur) + " F " + B(matchglob_copy(p, n, ci, true, 0)) + " | copy=" + B(matchglob_copy(p, n, ci, false, 0));
+        const bool cur = g_mutant ? matchglob_copy(p, n, ci, true, g_mutant) : matchglob(p, n, ci);
+        return "R " + B(cur) + " F " + B(matchglob_copy(p, n, ci, true, 0)) + " P " + B(matchglob_copy(p, n, ci, false, 0));
     }
     if (op == "vg")
         return B(isValidGlobPattern(unhex(f.at(1))));
